@@ -54,7 +54,7 @@ AnsFirst(u, nm, lk, kind, pl) ==
 \* the re-delivered datagram is read by the server: the windows are evaluated on the history BEFORE this step.
 \* pending = a query with this name (letter case ignored) is being held: the re-delivery is inside the property's scope,
 \* and the server remembers it as the held query's duplicate and answers both at once - the two share ONE entry of the
-\* answer cache, filed under the held query's spelling (since the repair of F11 a case-changed copy of a held query is
+\* answer cache, filed under the held query's spelling (since the repair of F12 a case-changed copy of a held query is
 \* its duplicate too; a later repeat of the copy's spelling is then not "still in the answer cache": it is suppressed
 \* by the query memory).  pendingx = a held query has exactly this spelling (kept for the record)
 RedBegin(u, nm, lk, kind, pending, pendingx) ==
